@@ -308,7 +308,8 @@ class Body:
 
     # -- statements --------------------------------------------------------
     def iter_stmts(self, blocks=None):
-        for b in (range(self.n) if blocks is None else blocks):
+        """statements of the normally-reachable blocks (cleanup copies excluded) unless `blocks` is given."""
+        for b in (sorted(self.reachable()) if blocks is None else blocks):
             for i, s in enumerate(self.blocks[b]["stmts"]):
                 yield (b, i), s
 
